@@ -132,6 +132,11 @@ static mbstate_t state;
 // returns the number of bytes in c
 // returns -1 if c is not a valid utf8 character
 size_t utf8_char_to_string(char *s, int32_t c) {
+	// c32rtomb still produces the obsolete 5 and 6 byte forms for values above U+10FFFF, which do not fit into s
+	if ((uint32_t)c > 0x10FFFF) {
+		return (size_t)-1;
+	}
+
 	size_t num_bytes = c32rtomb(s, c, &state);
 	if (num_bytes != (size_t)-1) {
 		s[num_bytes] = '\0';
